@@ -103,24 +103,28 @@ class FnInfo:
             if m:
                 for mm in re.finditer(r'^ {4}(\w+) \(([^)]*)\):\s*(.*)$', m.group(1), flags=re.M):
                     self.doctypes[mm.group(1)] = (mm.group(2), mm.group(3))
-        body = [node.body] if is_lambda else node.body
         self.tested = set()
+
+        def names_tested(t):
+            if isinstance(t, ast.Name):
+                self.tested.add(t.id)
+            elif isinstance(t, ast.BoolOp):
+                for x in t.values:
+                    names_tested(x)
+            elif isinstance(t, ast.UnaryOp):
+                names_tested(t.operand)
+            elif isinstance(t, ast.Compare):
+                names_tested(t.left)
+                for x in t.comparators:
+                    names_tested(x)
+            elif isinstance(t, ast.Call) and ast.unparse(t.func) in ('teneva._is_num', '_is_num', 'isinstance') \
+                    and t.args:
+                names_tested(t.args[0])
         for n in ast.walk(node.body if is_lambda else ast.Module(body=node.body, type_ignores=[])):
-            tests = []
             if isinstance(n, (ast.If, ast.IfExp, ast.While)):
-                tests.append(n.test)
-            if isinstance(n, ast.BoolOp):
-                tests.extend(n.values)
-            if isinstance(n, ast.UnaryOp) and isinstance(n.op, ast.Not):
-                tests.append(n.operand)
-            if isinstance(n, ast.Compare):
-                tests.append(n)
+                names_tested(n.test)
             if isinstance(n, ast.Assert):
-                tests.append(n.test)
-            for t in tests:
-                for x in ast.walk(t):
-                    if isinstance(x, ast.Name):
-                        self.tested.add(x.id)
+                names_tested(n.test)
 
     def scalar_param(self, p):
         """rule 1"""
@@ -594,7 +598,9 @@ class Tr:
         if e.attr in ATTR_VIEW:
             return recv
         if e.attr in self.pkg.props and recv:
-            return self.call_package(self.pkg.props[e.attr], [recv], {}, e, recv_first=True)
+            cls = self.static_class(e.value)
+            qs = [q for q in self.pkg.props[e.attr] if cls is None or q.startswith(cls + '.')] or self.pkg.props[e.attr]
+            return self.call_package(qs, [recv], {}, e, recv_first=True)
         return self.elem(recv)
 
     def is_advanced_index(self, idx):
@@ -766,6 +772,9 @@ class Tr:
                 return self.call_package([fv.qual], [self.argatom(a) for a in e.args], kw, e, extra=fv.cap_atoms,
                                          raw_args=e.args)
             c = self.cur.get(nm)
+            if nm == 'self' and self.info.cls and '__call__' in self.pkg.classes[self.info.cls] and c not in (None, SCALAR, FUNC):
+                return self.call_package([self.pkg.classes[self.info.cls]['__call__']], None, kw, e, raw_args=e.args,
+                                         self_atom=[c])
             if c is FUNC or (c is not None and c is not SCALAR):
                 return self.callback([[c]] if c is not FUNC else [], e.args, kw, e)
             if c is SCALAR:
@@ -809,6 +818,19 @@ class Tr:
             return [x]
         recv = self.E(f)
         return self.callback([recv], e.args, kw, e)
+
+    def static_class(self, e):
+        """class of the receiver when it is evident: `self` in a method, a constructor call"""
+        if isinstance(e, ast.Name) and e.id == 'self' and self.info.cls:
+            return self.info.cls
+        if isinstance(e, ast.Call):
+            f = e.func
+            if isinstance(f, ast.Name) and f.id in self.pkg.modclasses[self.mod] and f.id not in self.cur:
+                return self.pkg.modclasses[self.mod][f.id]
+            if isinstance(f, ast.Attribute) and isinstance(f.value, ast.Name) and f.value.id == 'teneva' \
+                    and self.pkg.exports.get(f.attr, ('', ''))[0] == 'class':
+                return self.pkg.exports[f.attr][1]
+        return None
 
     def argatom(self, a):
         if isinstance(a, ast.Starred):
@@ -1037,11 +1059,15 @@ class Tr:
         m = f.attr
         kw = dict(kw)
         recv = self.E(f.value)
+        cls = self.static_class(f.value)
+        if cls and m in self.pkg.classes[cls]:
+            return self.call_package([self.pkg.classes[cls][m]], None, kw, e, raw_args=e.args, self_atom=recv)
         if m in self.pkg.methods and m not in M_FRESH | M_VIEW | M_WRITE | M_SCALAR | M_STORE1 | M_STOREELEM \
                 and m not in ('copy', 'get', 'keys', 'values', 'items'):
-            return self.call_package(self.pkg.methods[m], None, kw, e, raw_args=e.args, self_atom=recv)
-        if m in self.pkg.methods and isinstance(f.value, ast.Name) and f.value.id == 'self':
-            return self.call_package(self.pkg.methods[m], None, kw, e, raw_args=e.args, self_atom=recv)
+            npos = len(e.args) + 1
+            cands = [q for q in self.pkg.methods[m] if npos <= self.pkg.funcs[q].npos or self.pkg.funcs[q].vararg]
+            if cands:
+                return self.call_package(cands, None, kw, e, raw_args=e.args, self_atom=recv)
         out = self.out_kw(kw, e)
         kw.pop('out', None)
         args = self.args_eval(e.args, kw)
@@ -1417,16 +1443,16 @@ class Gen:
         return [(qual, tuple(sorted(dict(bind, **c).items(), key=lambda kv: kv[0]))) for c in combos]
 
     def build(self):
+        self.helpers, self.classes_exported = [], []
         for nm, (what, q) in sorted(self.pkg.exports.items()):
-            if what == 'func':
+            if what == 'func' and not nm.startswith('_'):
                 for key in self.public_keys(q):
                     self.request(key)
                     self.api.append((nm, key))
+            elif what == 'func':
+                self.helpers.append(nm)        # underscore helpers: analysed as callees only
             else:
-                for mname, mq in sorted(self.pkg.classes[q].items()):
-                    for key in self.public_keys(mq):
-                        self.request(key)
-                        self.api.append((f'{nm}.{mname}', key))
+                self.classes_exported.append(nm)   # classes: their methods are analysed as callees of anova / anova_func
         while self.work:
             v = self.work.pop()
             tr = Tr(self, v)
@@ -1516,7 +1542,7 @@ class Gen:
                             up(x, self.bin_kind(v, e)[1])
                         elif t == 'copy?':
                             kr = kind(e[2])
-                            up(x, KA if kr in (BOT, KA) else kr)
+                            up(x, KLA if kr == KLA else KA)
                         elif t in ('cast', 'viewA'):
                             up(x, KA)
                         elif t == 'call':
@@ -1535,13 +1561,17 @@ class Gen:
                             changed = True
 
     def bin_kind(self, v, e):
+        """rule 4: list + list and list * number build a list holding the operands' elements"""
         _, s, op, l, r = e
         kl, kr = v.kind(l), v.kind(r)
         lst = (KLA, KL)
-        concat = (kl in lst and kr in lst) if op == 'add' else (kl in lst or kr in lst)
+        if op == 'add':
+            concat = bool(l) and bool(r) and kl in lst and kr in lst
+        else:
+            concat = (bool(l) and not r and kl in lst) or (bool(r) and not l and kr in lst)
         if not concat:
             return False, KA
-        ek = kjoin(kelem(kl) if kl in lst else BOT, kelem(kr) if kr in lst else BOT)
+        ek = kjoin(kelem(kl) if (l and kl in lst) else BOT, kelem(kr) if (r and kr in lst) else BOT)
         return True, (KLA if ek in (BOT, KA) else KL)
 
     # -- lowering ---------------------------------------------------------------------------------------------------
@@ -1574,7 +1604,7 @@ class Gen:
                         out.append(('def', x, ('fresh', e[1], ys)))
                     elif t == 'copy?':
                         ys = []
-                        if v.kind(e[2]) not in (BOT, KA):
+                        if v.kind(e[2]) == KLA:      # list.copy() is shallow; anything else: ndarray.copy / fancy index
                             tv = newvar()
                             out.append(('def', tv, ('elem', list(e[2]))))
                             ys = [tv]
